@@ -253,4 +253,5 @@ func init() {
 	mutant("C14", "sort-family-from-spelling", "C14.R6", "pac/pac_ipv6.go", "\t\treturn ips[i].To4() == nil", "\t\treturn len(ips[i].orig) > 15")
 	mutant("C08", "v2-local-offset-unchecked", "C08.R8", "proxyproto/v2.go", "\t\th.IsLocal = true\n", "\t\th.IsLocal = true\n\t\tif buf[13]&0xF0 == 0x10 {\n\t\t\toffset = ipv4AddressLen\n\t\t}\n")
 	mutant("C12", "v2-block-in-caller-buffer", "C12.R11", "proxyproto/v2.go", "\t\ttr = make([]byte, length)\n", "\t\ttr = make([]byte, length)\n\t\tif int(length) <= len(buf) {\n\t\t\ttr = buf[16 : 16+length]\n\t\t}\n")
+	mutant("C16", "rules-skipped-on-empty-header", "C16.R7", "header/header.go", "func (s Headers) ModifyResponse(res *http.Response) error {\n", "func (s Headers) ModifyResponse(res *http.Response) error {\n\tif len(res.Header) == 0 {\n\t\treturn nil\n\t}\n")
 }
